@@ -1,45 +1,874 @@
+// C08 harness: drives the real kai/state.StateDB (journal, snapshots, Finalise, IntermediateRoot,
+// Commit, Copy, re-open at a committed root, with and without a snapshot tree) with generated
+// operation histories over a tiny address/slot universe, prints every getter after every
+// operation for the model driver, and evaluates the property directly on the implementation:
+//
+//	revert-not-exact        dump taken at Snapshot() != dump after RevertToSnapshot(id)
+//	copy-differs            dump of a fresh Copy() != dump of the original
+//	copy-not-independent    a handle's dump changed although only OTHER handles were operated on
+//	root-surviving          root after IntermediateRoot/Commit != root of a fresh StateDB (opened at
+//	                        the lineage's base root) to which only the non-reverted operations
+//	                        (and no reads) were applied
+//	root-surviving-ripemd-touch   the same, explained by the inherited RIPEMD touch exception
+//	readback-differs        persistent getters of a StateDB re-opened at the committed root differ
+//	                        from the committing StateDB's own view / from what was written
+//	root-content            equal roots with different persistent dumps, or vice versa
+//	snap-differs            the same history on a database with a snapshot tree observes differently
+//	panic / db-error        unexpected panic, Commit error, memoised database error
 package main
 
 import (
 	"fmt"
 	"math/big"
+	"strings"
 
+	"github.com/kardiachain/go-kardia/kai/kaidb/memorydb"
 	"github.com/kardiachain/go-kardia/kai/state"
 	"github.com/kardiachain/go-kardia/kai/state/snapshot"
-	"github.com/kardiachain/go-kardia/kai/kaidb/memorydb"
 	"github.com/kardiachain/go-kardia/lib/common"
+	"github.com/kardiachain/go-kardia/lib/crypto"
+	"github.com/kardiachain/go-kardia/lib/log"
+	"github.com/kardiachain/go-kardia/types"
+
+	"verif/harness/internal/gen"
+	"verif/harness/internal/out"
 )
 
+const ripemdID = 3
+
+var (
+	codePool  = [][]byte{nil, {0x60, 0x00}, {0xfe}, {0x60, 0x01, 0x60, 0x02}}
+	codeLabel = map[common.Hash]int{}
+)
+
+func addrOf(i int) common.Address { return common.BytesToAddress([]byte{byte(i)}) }
+func hashOf(i int) common.Hash    { return common.BigToHash(big.NewInt(int64(i))) }
+func txHashOf(i int) common.Hash {
+	if i == 0 {
+		return common.Hash{}
+	}
+	return common.BigToHash(big.NewInt(int64(0x7700 + i)))
+}
+func preHashOf(i int) common.Hash { return common.BigToHash(big.NewInt(int64(0x5500 + i))) }
+func wordStr(h common.Hash) string { return new(big.Int).SetBytes(h[:]).String() }
+
+// op is one recorded operation (also the replay unit).
+type op struct {
+	h       int    // handle
+	code    string // CA AB SB BA NO CO SS SU AR SR LG PI AA AS TS TX SN RV FI IR CM CP NW DU
+	a, k    int
+	v       int64
+	dump    string // F | N | S.a.k
+	touchRM bool   // an AddBalance(ripemd,0) executed while ripemd existed and was empty
+}
+
+func (p op) line() string {
+	var args string
+	switch p.code {
+	case "CA", "SU", "AA":
+		args = fmt.Sprintf(" %d", p.a)
+	case "AB", "SB", "BA", "NO", "CO":
+		args = fmt.Sprintf(" %d %d", p.a, p.v)
+	case "SS", "TS":
+		args = fmt.Sprintf(" %d %d %d", p.a, p.k, p.v)
+	case "AS":
+		args = fmt.Sprintf(" %d %d", p.a, p.k)
+	case "AR", "SR", "LG", "RV", "FI", "IR", "CM", "CP":
+		args = fmt.Sprintf(" %d", p.v)
+	case "PI", "TX", "NW":
+		args = fmt.Sprintf(" %d %d", p.a, p.v)
+	}
+	return fmt.Sprintf("%d %s%s %s", p.h, p.code, args, p.dump)
+}
+
+// env is one database with its StateDB handles.
+type env struct {
+	mdb    *memorydb.Database
+	sdb    state.Database
+	snaps  *snapshot.Tree
+	hs     map[int]*state.StateDB
+	labels map[common.Hash]int
+	byLab  map[int]common.Hash
+	ua, uk []int
+}
+
+func newEnv(withSnaps bool, ua, uk []int) *env {
+	e := &env{mdb: memorydb.New(), hs: map[int]*state.StateDB{}, labels: map[common.Hash]int{}, byLab: map[int]common.Hash{}, ua: ua, uk: uk}
+	e.sdb = state.NewDatabase(e.mdb)
+	e.label(types.EmptyRootHash)
+	if withSnaps {
+		e.snaps, _ = snapshot.New(snapshot.Config{CacheSize: 1, NoBuild: false, AsyncBuild: false}, e.mdb, e.sdb.TrieDB(), types.EmptyRootHash)
+	}
+	st, err := state.New(common.Hash{}, e.sdb, e.snaps)
+	if err != nil {
+		panic(err)
+	}
+	e.hs[0] = st
+	return e
+}
+
+func (e *env) label(r common.Hash) int {
+	if r == (common.Hash{}) {
+		r = types.EmptyRootHash
+	}
+	if l, ok := e.labels[r]; ok {
+		return l
+	}
+	l := len(e.labels)
+	e.labels[r] = l
+	e.byLab[l] = r
+	return l
+}
+
+func b01(b bool) string {
+	if b {
+		return "1"
+	}
+	return "0"
+}
+
+func codeLab(st *state.StateDB, a common.Address) (string, string) {
+	h := st.GetCodeHash(a)
+	hs := "-"
+	if h != (common.Hash{}) {
+		if l, ok := codeLabel[h]; ok {
+			hs = fmt.Sprint(l)
+		} else {
+			hs = "?"
+		}
+	}
+	c := st.GetCode(a)
+	cs := "?"
+	if l, ok := codeLabel[crypto.Keccak256Hash(c)]; ok {
+		cs = fmt.Sprint(l)
+	}
+	if st.GetCodeSize(a) != len(c) {
+		cs = "?size"
+	}
+	return hs, cs
+}
+
+// acct mirrors the driver's read order: Exist, Empty, Balance, Nonce, CodeHash, Code, HasSuicided.
+func acct(st *state.StateDB, ai int) string {
+	a := addrOf(ai)
+	e, m := st.Exist(a), st.Empty(a)
+	b, n := st.GetBalance(a), st.GetNonce(a)
+	hs, cs := codeLab(st, a)
+	su := st.HasSuicided(a)
+	return fmt.Sprintf("A%d:%s%s,%s,%d,%s,%s,%s", ai, b01(e), b01(m), b.String(), n, hs, cs, b01(su))
+}
+
+func slotv(st *state.StateDB, ai, ki int) string {
+	x := st.GetState(addrOf(ai), hashOf(ki))
+	y := st.GetCommittedState(addrOf(ai), hashOf(ki))
+	return wordStr(x) + "/" + wordStr(y)
+}
+
+// persistent part of one account (what a re-opened state must reproduce)
+func persistent(st *state.StateDB, ai int, uk []int) (exists bool, s string) {
+	a := addrOf(ai)
+	hs, cs := codeLab(st, a)
+	parts := []string{b01(st.Exist(a)), b01(st.Empty(a)), st.GetBalance(a).String(), fmt.Sprint(st.GetNonce(a)), hs, cs}
+	for _, k := range uk {
+		parts = append(parts, wordStr(st.GetState(a, hashOf(k))))
+	}
+	return st.Exist(a), strings.Join(parts, ",")
+}
+
+func (e *env) full(st *state.StateDB) string {
+	var accts []string
+	for _, ai := range e.ua {
+		a := addrOf(ai)
+		hd := acct(st, ai)
+		var sl, tr []string
+		for _, k := range e.uk {
+			sl = append(sl, slotv(st, ai, k))
+		}
+		al := b01(st.AddressInAccessList(a))
+		for _, k := range e.uk {
+			ap, sp := st.SlotInAccessList(a, hashOf(k))
+			al += b01(ap) + b01(sp)
+		}
+		for _, k := range e.uk {
+			tr = append(tr, wordStr(st.GetTransientState(a, hashOf(k))))
+		}
+		accts = append(accts, fmt.Sprintf("%s,%s,%s,%s", hd, strings.Join(sl, "."), al, strings.Join(tr, ".")))
+	}
+	var lg []string
+	for t := 0; t < 3; t++ {
+		var items []string
+		for _, l := range st.GetLogs(txHashOf(t), 0, common.Hash{}) {
+			p := 0
+			if len(l.Data) > 0 {
+				p = int(l.Data[0])
+			}
+			if l.TxHash != txHashOf(t) {
+				p = -1
+			}
+			items = append(items, fmt.Sprintf("%d:%d:%d", p, l.TxIndex, l.Index))
+		}
+		lg = append(lg, fmt.Sprintf("L%d=[%s]", t, strings.Join(items, ";")))
+	}
+	var pi []string
+	pm := st.Preimages()
+	for t := 0; t < 3; t++ {
+		if v, ok := pm[preHashOf(t)]; ok && len(v) == 1 {
+			pi = append(pi, fmt.Sprint(int(v[0])))
+		} else if ok {
+			pi = append(pi, "?")
+		} else {
+			pi = append(pi, "-")
+		}
+	}
+	return fmt.Sprintf("%s R%d %s P%s", strings.Join(accts, " "), st.GetRefund(), strings.Join(lg, " "), strings.Join(pi, "."))
+}
+
+func (e *env) dump(st *state.StateDB, spec string) string {
+	switch {
+	case spec == "F":
+		return e.full(st)
+	case spec == "N":
+		return ""
+	}
+	var a, k int
+	p := strings.Split(spec, ".")
+	s := ""
+	if p[1] != "-" {
+		fmt.Sscan(p[1], &a)
+		s = acct(st, a)
+		if p[2] != "-" {
+			fmt.Sscan(p[2], &k)
+			s += "," + slotv(st, a, k)
+		}
+		s += " "
+	}
+	return s + fmt.Sprintf("R%d", st.GetRefund())
+}
+
+// exec applies one operation to the real StateDB and returns the result token.
+func (e *env) exec(p op) (res string, panicked bool) {
+	defer func() {
+		if r := recover(); r != nil {
+			res, panicked = "PANIC", true
+		}
+	}()
+	st := e.hs[p.h]
+	a := addrOf(p.a)
+	res = "-"
+	switch p.code {
+	case "CA":
+		st.CreateAccount(a)
+	case "AB":
+		st.AddBalance(a, big.NewInt(p.v))
+	case "SB":
+		st.SubBalance(a, big.NewInt(p.v))
+	case "BA":
+		st.SetBalance(a, big.NewInt(p.v))
+	case "NO":
+		st.SetNonce(a, uint64(p.v))
+	case "CO":
+		var c []byte
+		if p.v != 0 {
+			c = append([]byte{}, codePool[p.v]...)
+		}
+		st.SetCode(a, c)
+	case "SS":
+		st.SetState(a, hashOf(p.k), hashOf(int(p.v)))
+	case "SU":
+		res = "b" + b01(st.Suicide(a))
+	case "AR":
+		st.AddRefund(uint64(p.v))
+	case "SR":
+		st.SubRefund(uint64(p.v))
+	case "LG":
+		st.AddLog(&types.Log{Address: addrOf(1), Data: []byte{byte(p.v)}})
+	case "PI":
+		st.AddPreimage(preHashOf(p.a), []byte{byte(p.v)})
+	case "AA":
+		st.AddAddressToAccessList(a)
+	case "AS":
+		st.AddSlotToAccessList(a, hashOf(p.k))
+	case "TS":
+		st.SetTransientState(a, hashOf(p.k), hashOf(int(p.v)))
+	case "TX":
+		st.Prepare(txHashOf(p.a), common.Hash{}, int(p.v))
+	case "SN":
+		res = fmt.Sprintf("i%d", st.Snapshot())
+	case "RV":
+		st.RevertToSnapshot(int(p.v))
+	case "FI":
+		st.Finalise(p.v == 1)
+	case "IR":
+		res = fmt.Sprintf("r%d", e.label(st.IntermediateRoot(p.v == 1)))
+	case "CM":
+		root, err := st.Commit(p.v == 1)
+		if err != nil {
+			res = "ERR"
+		} else {
+			res = fmt.Sprintf("r%d", e.label(root))
+		}
+	case "CP":
+		e.hs[int(p.v)] = st.Copy()
+	case "NW":
+		n, err := state.New(e.byLab[int(p.v)], e.sdb, e.snaps)
+		if err != nil {
+			res = "ERR"
+		} else {
+			e.hs[p.a] = n
+		}
+	case "DU":
+	}
+	return
+}
+
+// lineage: what a fresh StateDB needs to reproduce a handle's content
+type lineage struct {
+	ok       bool // replayable
+	tainted  bool // a classified RIPEMD divergence happened
+	base     common.Hash
+	ops      []op  // surviving operations (reads excluded)
+	marks    []int // len(ops) at each valid snapshot (parallel to valid)
+	valid    []int // valid revision ids
+	clean    bool  // journal certainly empty
+	rmLeak   bool  // a reverted segment contained a RIPEMD touch since the last journal clear
+	snapDump map[int]string
+}
+
+func (l *lineage) clone() *lineage {
+	c := &lineage{ok: l.ok && l.clean, tainted: l.tainted, base: l.base, clean: true, snapDump: map[int]string{}}
+	c.ops = append([]op{}, l.ops...)
+	return c
+}
+
 func main() {
-	mdb := memorydb.New()
-	sdb := state.NewDatabase(mdb)
-	st, err := state.New(common.Hash{}, sdb, nil)
-	fmt.Println(err)
-	rip := common.HexToAddress("0x03")
-	a1 := common.HexToAddress("0xa1")
-	st.AddBalance(rip, big.NewInt(0))
-	st.SetState(a1, common.BigToHash(big.NewInt(1)), common.BigToHash(big.NewInt(7)))
-	st.SetCode(a1, []byte{1, 2, 3})
-	root, err := st.Commit(false)
-	fmt.Println(root.Hex(), err)
-	st2, err := state.New(root, sdb, nil)
-	fmt.Println(err, st2.Exist(rip), st2.Empty(rip), st2.GetState(a1, common.BigToHash(big.NewInt(1))), st2.GetCode(a1))
-	// ripemd quirk
-	id := st2.Snapshot()
-	st2.AddBalance(rip, big.NewInt(0))
-	st2.RevertToSnapshot(id)
-	r2 := st2.IntermediateRoot(true)
-	st3, _ := state.New(root, sdb, nil)
-	r3 := st3.IntermediateRoot(true)
-	fmt.Println("ripemd roots equal:", r2 == r3, st2.Exist(rip), st3.Exist(rip))
-	// snapshot tree
-	snaps, err := snapshot.New(snapshot.Config{CacheSize: 1, NoBuild: false, AsyncBuild: false}, mdb, sdb.TrieDB(), root)
-	fmt.Println("snaps", snaps != nil, err)
-	st4, err := state.New(root, sdb, snaps)
-	fmt.Println(err, st4.Exist(rip), st4.GetState(a1, common.BigToHash(big.NewInt(1))), st4.GetCode(a1))
-	st4.SetState(a1, common.BigToHash(big.NewInt(2)), common.BigToHash(big.NewInt(9)))
-	r4, err := st4.Commit(true)
-	fmt.Println(r4.Hex(), err)
-	st5, err := state.New(r4, sdb, snaps)
-	fmt.Println(err, st5.Exist(rip), st5.GetState(a1, common.BigToHash(big.NewInt(2))))
+	out.WriteFacts(func() string { return "" })
+	log.Root().SetHandler(log.DiscardHandler())
+	for i, c := range codePool {
+		codeLabel[crypto.Keccak256Hash(c)] = i
+	}
+	o := out.Open()
+	o.Rule = "a case is one history over <=4 StateDB handles on one database (setters, Snapshot/RevertToSnapshot nested, Finalise, IntermediateRoot, Commit, Copy, re-open at a committed root), 3 addresses (always 0x03) x 3 slots; non-trivial = contains a revert, a copy, or a commit followed by a re-open; distinct by the op-kind string and result string"
+	root := gen.New(*out.Seed)
+	for c := 0; c < *out.N; c++ {
+		if !out.Want(c) {
+			continue
+		}
+		runCase(o, root.Fork(uint64(c)), c)
+	}
+	o.Close()
+}
+
+type caseRun struct {
+	o       *out.Out
+	r       *gen.Rand
+	e       *env
+	lin     map[int]*lineage
+	ops     []op     // everything executed, in order (for the snapshot-tree replay)
+	lines   []string // observed lines
+	last    map[int]string // last full dump per handle
+	touched map[int]bool   // handle operated on since its last full dump
+	step    int
+	kinds   strings.Builder
+	results strings.Builder
+	nextH   int
+	commits []int // labels of committed roots
+	sparse  bool
+}
+
+// do executes p on the main environment, records it, and runs the per-op oracles.
+func (cr *caseRun) do(p op) string {
+	e := cr.e
+	st := e.hs[p.h]
+	l := cr.lin[p.h]
+	// RIPEMD touch bookkeeping (before the op: existence/emptiness at call time)
+	if p.code == "AB" && p.a == ripemdID && p.v == 0 && st.Exist(addrOf(ripemdID)) && st.Empty(addrOf(ripemdID)) {
+		p.touchRM = true
+	}
+	res, pan := e.exec(p)
+	if pan && !(p.code == "SR" || p.code == "RV") {
+		cr.o.Fail(cr.step, "panic", "unexpected panic in "+p.code)
+	}
+	if res == "ERR" {
+		cr.o.Fail(cr.step, "db-error", "error returned by "+p.code)
+	}
+	d := ""
+	target := p.h
+	if p.dump != "N" {
+		d = e.dump(e.hs[target], p.dump)
+	}
+	line := res + "|" + d
+	cr.o.Op(p.line(), line)
+	cr.o.Count("op." + p.code)
+	cr.kinds.WriteString(p.code[:1] + strings.ToLower(p.code[1:2]))
+	cr.ops = append(cr.ops, p)
+	cr.lines = append(cr.lines, line)
+	// --- lineage + oracles
+	mut := true
+	switch p.code {
+	case "DU", "CP", "NW":
+		mut = false
+	}
+	if mut {
+		cr.touched[p.h] = true
+	}
+	switch p.code {
+	case "SN":
+		var id int
+		fmt.Sscanf(res, "i%d", &id)
+		l.valid = append(l.valid, id)
+		l.marks = append(l.marks, len(l.ops))
+		l.ops = append(l.ops, p)
+		if p.dump == "F" {
+			l.snapDump[id] = d
+		}
+	case "RV":
+		if !pan {
+			for i, id := range l.valid {
+				if id == int(p.v) {
+					for _, q := range l.ops[l.marks[i]:] {
+						if q.touchRM {
+							l.rmLeak = true
+						}
+					}
+					l.ops = l.ops[:l.marks[i]]
+					l.valid, l.marks = l.valid[:i], l.marks[:i]
+					break
+				}
+			}
+			l.clean = false
+			if want, ok := l.snapDump[int(p.v)]; ok && p.dump == "F" {
+				if want != d {
+					cr.o.Fail(cr.step, "revert-not-exact", fmt.Sprintf("dump at Snapshot()=%d [%s] != dump after RevertToSnapshot [%s]", p.v, want, d))
+				}
+				cr.o.Count("oracle.revert-checked")
+			}
+			for id := range l.snapDump {
+				if id >= int(p.v) {
+					delete(l.snapDump, id)
+				}
+			}
+		}
+	case "FI", "IR", "CM":
+		l.ops = append(l.ops, p)
+		l.valid, l.marks = nil, nil
+		l.snapDump = map[int]string{}
+		l.clean = true
+		if p.code != "FI" && res != "ERR" && !pan {
+			var lab int
+			fmt.Sscanf(res, "r%d", &lab)
+			cr.checkSurviving(p, l, lab)
+			if p.code == "CM" {
+				cr.commits = append(cr.commits, lab)
+			}
+		}
+		l.rmLeak = false
+	case "DU", "CP", "NW":
+	default:
+		l.ops = append(l.ops, p)
+		l.clean = false
+	}
+	if p.dump == "F" {
+		if prev, ok := cr.last[target]; ok && !cr.touched[target] && prev != d {
+			cr.o.Fail(cr.step, "copy-not-independent", fmt.Sprintf("handle %d was not operated on but its dump changed: [%s] -> [%s]", target, prev, d))
+		}
+		cr.last[target] = d
+		cr.touched[target] = false
+	}
+	cr.step++
+	return res
+}
+
+// checkSurviving: root of handle after IR/Commit == root of a fresh StateDB given only the surviving ops.
+func (cr *caseRun) checkSurviving(p op, l *lineage, lab int) {
+	if !l.ok || l.tainted {
+		cr.o.Count("oracle.surviving-skipped")
+		return
+	}
+	e := cr.e
+	fresh, err := state.New(l.base, e.sdb, nil)
+	if err != nil {
+		cr.o.Fail(cr.step, "db-error", "cannot open lineage base root")
+		return
+	}
+	fe := &env{sdb: e.sdb, hs: map[int]*state.StateDB{0: fresh}, labels: map[common.Hash]int{}, byLab: map[int]common.Hash{}}
+	var got common.Hash
+	pan := false
+	for i, q := range l.ops {
+		q.h = 0
+		if q.code == "SN" {
+			continue
+		}
+		last := i == len(l.ops)-1
+		if q.code == "CM" || q.code == "IR" {
+			func() {
+				defer func() {
+					if r := recover(); r != nil {
+						pan = true
+					}
+				}()
+				if q.code == "CM" {
+					var err error
+					if got, err = fresh.Commit(q.v == 1); err != nil {
+						pan = true
+					}
+				} else {
+					got = fresh.IntermediateRoot(q.v == 1)
+				}
+			}()
+			_ = last
+			continue
+		}
+		if _, pn := fe.exec(q); pn && q.code != "SR" {
+			pan = true
+		}
+	}
+	if pan {
+		cr.o.Fail(cr.step, "panic", "panic while replaying surviving operations on a fresh StateDB")
+		return
+	}
+	cr.o.Count("oracle.surviving-checked")
+	want := e.byLab[lab]
+	if got == want {
+		return
+	}
+	// classify: which accounts differ between the two contents
+	hst := e.hs[p.h].Copy()
+	var diff []int
+	for _, ai := range e.ua {
+		_, x := persistent(hst, ai, e.uk)
+		_, y := persistent(fresh, ai, e.uk)
+		if x != y {
+			diff = append(diff, ai)
+		}
+	}
+	detail := fmt.Sprintf("handle %d root %s != fresh replay root %s; differing accounts %v", p.h, want.Hex()[:10], got.Hex()[:10], diff)
+	if l.rmLeak && len(diff) == 1 && diff[0] == ripemdID {
+		cr.o.Fail(cr.step, "root-surviving-ripemd-touch", detail)
+		l.tainted = true
+		cr.o.Count("oracle.ripemd-exception")
+		return
+	}
+	cr.o.Fail(cr.step, "root-surviving", detail)
+	l.tainted = true
+}
+
+func runCase(o *out.Out, r *gen.Rand, c int) {
+	// universe: ripemd + two of {1,2,4,5}; three of the slots {0,1,2,3}
+	pa := r.Perm(4)
+	cand := []int{1, 2, 4, 5}
+	ua := []int{ripemdID, cand[pa[0]], cand[pa[1]]}
+	if r.Bool() {
+		ua[0], ua[1] = ua[1], ua[0]
+	}
+	pk := r.Perm(4)
+	uk := []int{pk[0], pk[1], pk[2]}
+	cr := &caseRun{o: o, r: r, e: newEnv(false, ua, uk), lin: map[int]*lineage{}, last: map[int]string{}, touched: map[int]bool{}, nextH: 1}
+	cr.lin[0] = &lineage{ok: true, base: types.EmptyRootHash, clean: true, snapDump: map[int]string{}}
+	cr.sparse = r.Chance(1, 2)
+	o.Case(c, fmt.Sprintf("CASE %d A %d %d %d K %d %d %d", c, ua[0], ua[1], ua[2], uk[0], uk[1], uk[2]))
+	o.Count(fmt.Sprintf("mode.sparse%s", b01(cr.sparse)))
+	cr.generate()
+	// ---- replay the identical history on a database with a snapshot tree
+	e2 := newEnv(true, ua, uk)
+	for i, p := range cr.ops {
+		res, _ := e2.exec(p)
+		d := ""
+		if p.dump != "N" {
+			d = e2.dump(e2.hs[p.h], p.dump)
+		}
+		if line := res + "|" + d; line != cr.lines[i] {
+			o.Fail(i, "snap-differs", fmt.Sprintf("op %q: without snapshot tree [%s], with snapshot tree [%s]", p.line(), cr.lines[i], line))
+			break
+		}
+	}
+	o.Count("oracle.snap-replayed")
+	for _, st := range cr.e.hs {
+		if st.Error() != nil {
+			o.Fail(cr.step, "db-error", "memoised database error: "+st.Error().Error())
+		}
+	}
+	k := cr.kinds.String()
+	if strings.Contains(k, "Rv") || strings.Contains(k, "Cp") || strings.Contains(k, "Nw") {
+		o.Mark(k + "|" + cr.results.String())
+	}
+}
+
+func (cr *caseRun) spec(a, k int) string {
+	if !cr.sparse || cr.r.Chance(1, 8) {
+		return "F"
+	}
+	as, ks := "-", "-"
+	if a >= 0 {
+		as = fmt.Sprint(a)
+		if k >= 0 {
+			ks = fmt.Sprint(k)
+		}
+	}
+	return fmt.Sprintf("S.%s.%s", as, ks)
+}
+
+// commitAndReopen: dump, Commit, dump, re-open at the root, dump; read-back oracles.
+func (cr *caseRun) commitAndReopen(h int, de bool) {
+	e := cr.e
+	st := e.hs[h]
+	cr.do(op{h: h, code: "DU", dump: "F"})
+	type pers struct {
+		ex bool
+		s  string
+		su bool
+		em bool
+	}
+	before := map[int]pers{}
+	for _, ai := range e.ua {
+		ex, s := persistent(st, ai, e.uk)
+		before[ai] = pers{ex, s, st.HasSuicided(addrOf(ai)), st.Empty(addrOf(ai))}
+	}
+	v := int64(0)
+	if de {
+		v = 1
+	}
+	res := cr.do(op{h: h, code: "CM", v: v, dump: "F"})
+	var lab int
+	if n, _ := fmt.Sscanf(res, "r%d", &lab); n != 1 {
+		return
+	}
+	nh := cr.nextH
+	cr.nextH++
+	cr.lin[nh] = &lineage{ok: true, base: e.byLab[lab], clean: true, snapDump: map[int]string{}}
+	cr.do(op{h: h, code: "NW", a: nh, v: int64(lab), dump: "N"})
+	if e.hs[nh] == nil {
+		return
+	}
+	cr.do(op{h: nh, code: "DU", dump: "F"})
+	cr.results.WriteString(fmt.Sprintf("c%d", lab))
+	for _, ai := range e.ua {
+		_, own := persistent(st, ai, e.uk)
+		ex, re := persistent(e.hs[nh], ai, e.uk)
+		if own != re {
+			cr.o.Fail(cr.step, "readback-differs", fmt.Sprintf("account %d: committing StateDB sees [%s], re-opened StateDB sees [%s]", ai, own, re))
+		}
+		b := before[ai]
+		if ex && re != b.s {
+			cr.o.Fail(cr.step, "readback-differs", fmt.Sprintf("account %d: written [%s], read back [%s]", ai, b.s, re))
+		}
+		if !ex && b.ex && !(b.su || b.em) {
+			cr.o.Fail(cr.step, "readback-differs", fmt.Sprintf("account %d existed non-empty and not self-destructed before Commit [%s] but is absent after re-open", ai, b.s))
+		}
+	}
+	cr.o.Count("oracle.readback-checked")
+}
+
+func (cr *caseRun) generate() {
+	r, e := cr.r, cr.e
+	ua, uk := e.ua, e.uk
+	cur := 0
+	live := []int{0}
+	// prelude: populate, Commit(false) so that empty accounts persist, re-open
+	if r.Chance(3, 4) {
+		np := 2 + r.Intn(6)
+		for i := 0; i < np; i++ {
+			a := ua[r.Intn(3)]
+			switch r.Pick(3, 3, 2, 3, 1) {
+			case 0:
+				cr.do(op{h: 0, code: "AB", a: a, v: 0, dump: cr.spec(a, -1)}) // creates an EMPTY account
+			case 1:
+				cr.do(op{h: 0, code: "AB", a: a, v: int64(1 + r.Intn(9)), dump: cr.spec(a, -1)})
+			case 2:
+				cr.do(op{h: 0, code: "NO", a: a, v: int64(1 + r.Intn(3)), dump: cr.spec(a, -1)})
+			case 3:
+				k := uk[r.Intn(3)]
+				cr.do(op{h: 0, code: "SS", a: a, k: k, v: int64(1 + r.Intn(3)), dump: cr.spec(a, k)})
+			case 4:
+				cr.do(op{h: 0, code: "CO", a: a, v: int64(1 + r.Intn(3)), dump: cr.spec(a, -1)})
+			}
+		}
+		cr.commitAndReopen(0, r.Chance(1, 4))
+		if e.hs[cr.nextH-1] != nil && r.Chance(5, 6) {
+			cur = cr.nextH - 1
+			live = append(live, cur)
+		}
+	}
+	nops := 10 + r.Intn(60)
+	if *out.Tier == "thorough" && r.Chance(1, 10) {
+		nops += 60
+	}
+	for i := 0; i < nops; i++ {
+		if len(live) > 1 && r.Chance(1, 6) {
+			cur = live[r.Intn(len(live))]
+		}
+		h := cur
+		st := e.hs[h]
+		l := cr.lin[h]
+		a := ua[r.Intn(3)]
+		k := uk[r.Intn(3)]
+		switch r.Pick(4, 8, 4, 3, 4, 4, 14, 4, 3, 2, 3, 2, 2, 3, 4, 2, 9, 9, 4, 4, 2, 2, 2, 2) {
+		case 0:
+			cr.do(op{h: h, code: "CA", a: a, dump: cr.spec(a, -1)})
+		case 1:
+			v := int64(r.Pick(3, 2, 2, 1)) // 0 is the touch
+			if v == 3 {
+				v = int64(10 + r.Intn(90))
+			}
+			cr.do(op{h: h, code: "AB", a: a, v: v, dump: cr.spec(a, -1)})
+		case 2:
+			bal := st.GetBalance(addrOf(a)).Int64()
+			v := int64(0)
+			if bal > 0 && r.Chance(4, 5) {
+				v = 1 + int64(r.Intn(int(bal)))
+			}
+			cr.do(op{h: h, code: "SB", a: a, v: v, dump: cr.spec(a, -1)})
+		case 3:
+			cr.do(op{h: h, code: "BA", a: a, v: int64(r.Pick(2, 1, 1)) * int64(1+r.Intn(5)), dump: cr.spec(a, -1)})
+		case 4:
+			cr.do(op{h: h, code: "NO", a: a, v: int64(r.Intn(3)), dump: cr.spec(a, -1)})
+		case 5:
+			cr.do(op{h: h, code: "CO", a: a, v: int64(r.Intn(4)), dump: cr.spec(a, -1)})
+		case 6:
+			cr.do(op{h: h, code: "SS", a: a, k: k, v: int64(r.Pick(2, 2, 2, 1)), dump: cr.spec(a, k)})
+		case 7:
+			cr.do(op{h: h, code: "SU", a: a, dump: cr.spec(a, -1)})
+		case 8:
+			cr.do(op{h: h, code: "AR", v: int64(1 + r.Intn(5)), dump: cr.spec(-1, -1)})
+		case 9:
+			ref := int64(st.GetRefund())
+			v := int64(0)
+			if ref > 0 {
+				v = 1 + int64(r.Intn(int(ref)))
+			}
+			if r.Chance(1, 12) {
+				v = ref + 1 // documented panic
+			}
+			cr.do(op{h: h, code: "SR", v: v, dump: cr.spec(-1, -1)})
+		case 10:
+			cr.do(op{h: h, code: "LG", v: int64(1 + r.Intn(9)), dump: "F"})
+		case 11:
+			cr.do(op{h: h, code: "PI", a: r.Intn(3), v: int64(1 + r.Intn(5)), dump: "F"})
+		case 12:
+			cr.do(op{h: h, code: "AA", a: a, dump: "F"})
+		case 13:
+			cr.do(op{h: h, code: "AS", a: a, k: k, dump: "F"})
+		case 14:
+			cr.do(op{h: h, code: "TS", a: a, k: k, v: int64(r.Intn(3)), dump: "F"})
+		case 15:
+			cr.do(op{h: h, code: "TX", a: r.Intn(3), v: int64(r.Intn(3)), dump: cr.spec(-1, -1)})
+		case 16:
+			d := "F"
+			if cr.sparse && r.Bool() {
+				d = "S.-.-"
+			}
+			cr.do(op{h: h, code: "SN", dump: d})
+		case 17:
+			if len(l.valid) == 0 {
+				if r.Chance(1, 10) {
+					cr.do(op{h: h, code: "RV", v: int64(r.Intn(4)), dump: "F"}) // invalid id: documented panic
+				}
+				continue
+			}
+			id := l.valid[len(l.valid)-1-r.Pick(6, 2, 1)%len(l.valid)]
+			if r.Chance(1, 40) {
+				id = 1000 // invalid
+			}
+			cr.do(op{h: h, code: "RV", v: int64(id), dump: "F"})
+			cr.results.WriteString("v")
+		case 18:
+			cr.do(op{h: h, code: "FI", v: int64(r.Pick(1, 2)), dump: cr.spec(a, k)})
+		case 19:
+			cr.do(op{h: h, code: "IR", v: int64(r.Pick(1, 2)), dump: cr.spec(a, k)})
+		case 20:
+			if r.Bool() {
+				cr.do(op{h: h, code: "CM", v: int64(r.Pick(1, 2)), dump: cr.spec(a, k)})
+			} else {
+				cr.commitAndReopen(h, r.Chance(2, 3))
+				if len(live) < 4 && r.Bool() {
+					live = append(live, cr.nextH-1)
+					if r.Bool() {
+						cur = cr.nextH - 1
+					}
+				}
+			}
+		case 21:
+			if len(live) >= 4 {
+				continue
+			}
+			if !l.clean && r.Bool() { // half of the copies are taken at a transaction boundary
+				cr.do(op{h: h, code: []string{"FI", "IR"}[r.Intn(2)], v: int64(r.Pick(1, 2)), dump: cr.spec(a, k)})
+			}
+			nh := cr.nextH
+			cr.nextH++
+			cr.lin[nh] = l.clone()
+			if !cr.lin[nh].ok {
+				cr.o.Count("copy.midtx")
+			} else {
+				cr.o.Count("copy.clean")
+			}
+			cr.do(op{h: h, code: "DU", dump: "F"})
+			cr.do(op{h: h, code: "CP", v: int64(nh), dump: "N"})
+			cr.do(op{h: nh, code: "DU", dump: "F"})
+			// A StateDB that descends from a copy taken in the middle of a transaction may carry
+			// live objects whose suicided flag was never finalised (Copy drops the journal); its
+			// own copies are then compared by the model only.
+			if l.ok {
+				if cr.last[h] != cr.last[nh] {
+					cr.o.Fail(cr.step, "copy-differs", fmt.Sprintf("original [%s] copy [%s]", cr.last[h], cr.last[nh]))
+				}
+				cr.o.Count("oracle.copy-equal-checked")
+			} else {
+				cr.o.Count("oracle.copy-equal-skipped")
+			}
+			// Copy does not carry thash/txIndex; the dump has no such field, so equality is expected
+			live = append(live, nh)
+			if r.Bool() {
+				cur = nh
+			}
+			cr.results.WriteString("p")
+		case 22:
+			// look at another handle: must be unchanged by the work done elsewhere
+			oh := live[r.Intn(len(live))]
+			cr.do(op{h: oh, code: "DU", dump: "F"})
+		case 23:
+			// re-open a previously committed root
+			if len(cr.commits) == 0 || len(live) >= 4 {
+				continue
+			}
+			lab := cr.commits[r.Intn(len(cr.commits))]
+			nh := cr.nextH
+			cr.nextH++
+			cr.lin[nh] = &lineage{ok: true, base: e.byLab[lab], clean: true, snapDump: map[int]string{}}
+			cr.do(op{h: h, code: "NW", a: nh, v: int64(lab), dump: "N"})
+			if e.hs[nh] != nil {
+				cr.do(op{h: nh, code: "DU", dump: "F"})
+				live = append(live, nh)
+			}
+		}
+	}
+	// epilogue: every live handle is dumped, committed, re-opened and read back
+	for _, h := range live {
+		cr.do(op{h: h, code: "DU", dump: "F"})
+	}
+	for _, h := range live {
+		cr.commitAndReopen(h, r.Bool())
+	}
+	// root <-> content: equal labels must mean equal persistent dumps of the re-opened states (checked by the model
+	// comparison through labels); here directly: two committed roots are equal iff their re-opened dumps are equal
+	seen := map[int]string{}
+	for _, lab := range cr.commits {
+		st, err := state.New(e.byLab[lab], e.sdb, nil)
+		if err != nil {
+			cr.o.Fail(cr.step, "db-error", "cannot re-open committed root")
+			continue
+		}
+		var parts []string
+		for _, ai := range ua {
+			_, s := persistent(st, ai, uk)
+			parts = append(parts, s)
+		}
+		seen[lab] = strings.Join(parts, " ")
+	}
+	for l1, s1 := range seen {
+		for l2, s2 := range seen {
+			if l1 < l2 && s1 == s2 {
+				cr.o.Fail(cr.step, "root-content", fmt.Sprintf("different roots %d,%d with identical content [%s]", l1, l2, s1))
+			}
+		}
+	}
 }
